@@ -72,7 +72,7 @@ ASSUME = ["refs/keplerref.py (eccentric-anomaly-difference f/g solution, no code
 SHARDS = {"quick": 4, "thorough": 16}
 BUDGET_S = {"quick": 75, "thorough": 900}
 DECIDING = ["tol_constants", "kepler_exact", "conservation", "universal", "compose", "batch_vs_single", "bulk_vs_single",
-            "bulk_degenerate", "event_restart", "epoch_resplit", "sp_compose", "sp_batch_vs_single", "sp_bulk_vs_single", "sp_deriv_batch", "sp_deriv_epoch",
+            "bulk_degenerate", "event_restart", "epoch_resplit", "sp_compose", "sp_batch_vs_single", "sp_bulk_vs_single", "sp_deriv_batch", "sp_deriv_epoch", "history_independent", "sp_history_independent", "scenario_clone_join",
             "sp_reduces", "scenario_truth"]
 MANIFEST = {"technique": "runtime monitoring: metamorphic relations + closed-form Kepler oracle on the real propagators",
             "level_text": "exploration: seeded boundary-biased sampling of orbits, durations, splits, batches, grids, epoch shifts",
@@ -593,6 +593,34 @@ def rel_event(ctx, spec, x0, t0, te, t2, ttype="float", dv=None):
     return True
 
 
+def rel_history(ctx, spec, x0, t0, t1, t2, frac):
+    """The result depends on (epoch, state) only, not on what the dynamics object did before: a plain propagation repeated on
+    the same object after a call that returned while a finite burn was still open gives the bit-identical result."""
+    from functools import partial
+
+    from resonaate.dynamics.integration_events.finite_thrust import ScheduledFiniteBurn, ntwBurn
+    from resonaate.physics.time.stardate import ScenarioTime
+
+    x0 = np.asarray(x0, dtype=float)
+    w = _w("history", spec=spec, x0=x0, t0=t0, t1=t1, t2=t2, frac=frac)
+    mon, p = _mon(spec, "history_independent"), _pfx(spec)
+    before = _propagate(ctx, spec, t1, t2, x0, p + "history", w, mon)
+    if before is None:
+        return False
+    ts = t0 + frac * (t1 - t0)
+    burn = ScheduledFiniteBurn(start_time=ScenarioTime(ts), end_time=ScenarioTime(t1 + (t2 - t1) * 0.5), thrust_func=partial(ntwBurn, acc_vector=np.array([0.0, 1.0e-5, 0.0])), agent_id=1)
+    mid = _propagate(ctx, spec, t0, t1, x0, p + "history", w, mon, events=[burn])  # returns with the burn still open
+    if mid is None:
+        return False
+    after = _propagate(ctx, spec, t1, t2, x0, p + "history", w, mon)
+    if after is None:
+        return False
+    same = before.tobytes() == after.tobytes()
+    ctx.check(same, p + "result-depends-on-object-history", f"{spec['method']} propagate({t1:.6g}, {t2:.6g}, x) on one dynamics object differs by {np.linalg.norm(after[:3] - before[:3]):.3e} km "
+              f"/ {np.linalg.norm(after[3:] - before[3:]):.3e} km/s after an earlier call on it returned inside a finite burn", w, mon=mon)
+    return True
+
+
 def rel_epoch(ctx, spec, x0, t0, t2, shift_s):
     """Same absolute epoch, re-split between init_julian_date and t: (jd0, t) vs (jd0 + s/86400, t - s)."""
     x0 = np.asarray(x0, dtype=float)
@@ -740,6 +768,50 @@ def rel_scenario(ctx, start_iso, steps, dur, X, model, integration, geo=None, pe
                       f"{np.linalg.norm(ta[key][:3] - tb[key][:3]):.3e} km", w, mon):
             return True
     return True
+
+
+def rel_clone_join(ctx, start_iso, step, nsteps, j, x0, model, integration, geo=None, pert=None):
+    """A satellite added to a running scenario (Scenario.addTarget between two steps) with exactly the state another, identically
+    configured satellite has at that moment follows it bit for bit from then on: the propagation depends on the absolute epoch
+    and the state only, not on when the dynamics object was created."""
+    from datetime import datetime, timedelta
+
+    from .. import scenario_kit as sk
+
+    sk.init()
+    x0 = np.asarray(x0, dtype=float)
+    w = _w("clone_join", start=start_iso, step=step, nsteps=nsteps, j=j, x0=x0, model=model, integration=integration, geo=geo, pert=pert)
+    mon = "scenario_clone_join"
+    start = datetime.fromisoformat(start_iso)
+    cfg = sk.scenario_cfg(start, start + timedelta(seconds=(nsteps + 2) * step), step, [sk.engine_cfg(1, [sk.target_cfg(10001, x0[:3], x0[3:])], [sk.ground_sensor_cfg(20001, 35.0, -106.0)])],
+                          truth_only=True, model=model, integration=integration, geopotential=geo, perturbations=pert)
+    b = None
+    pairs = []
+    try:
+        with _guard():
+            b = sk.build(cfg)
+            app = b.app
+            for k in range(1, nsteps + 1):
+                app.stepForward()
+                if k == j:
+                    from resonaate.data.agent import AgentModel
+
+                    xs = np.array(app.target_agents[10001].eci_state, dtype=float)
+                    app.database.insertData(AgentModel(unique_id=10002, name="T10002"))
+                    app.addTarget(sk.target_cfg(10002, xs[:3], xs[3:]), 1)
+                elif k > j:
+                    pairs.append((k, np.array(app.target_agents[10001].eci_state, dtype=float), np.array(app.target_agents[10002].eci_state, dtype=float)))
+    except Exception as exc:  # noqa: BLE001
+        ctx.check(False, "scenario-run-raised", f"truth-only {model} scenario with a satellite added after step {j} raised {type(exc).__name__}: {str(exc)[:200]}", w, mon=mon)
+        return False
+    finally:
+        if b is not None:
+            sk.teardown(b)
+    for k, xa, xb in pairs:
+        if not ctx.check(xa.tobytes() == xb.tobytes(), "late-joined-clone-diverges", f"{integration} {model} scenario (step {step} s): a satellite added after step {j} with the state of an identical one "
+                         f"differs from it at step {k} by {np.linalg.norm(xa[:3] - xb[:3]):.3e} km", w, mon=mon):
+            break
+    return bool(pairs)
 
 
 # ---------------------------------------------------------------------------------------------
@@ -965,6 +1037,8 @@ def _tb_case(ctx, rng, i):
         if rng.random() < 0.5:
             dv = [rng.gauss(0, 1) * 10 ** rng.uniform(-5, -2) for _ in range(3)]
         done = rel_event(ctx, spec, x0, t0, te, t2, ttype, dv)
+        if te > t0 and t2 > te:
+            rel_history(ctx, spec, x0, t0, te, t2, rng.choice([0.0, 0.3, 0.9]))
         key = (rel, spec["method"], _rnd(x0), t0, te, t2, dv is None)
         smp = {"relation": "terminal event (no-op)" if dv is None else "terminal event (impulse) vs manual composition", "method": spec["method"], "x0": _rnd(x0), "t0": t0, "te-t0": te - t0, "dt": t2 - t0}
     else:  # degenerate grids
@@ -1036,6 +1110,7 @@ def _sp_case(ctx, rng, i):
     elif rel == "event":
         te = t0 + (t2 - t0) * rng.uniform(0.05, 0.95)
         done = rel_event(ctx, spec, x0, t0, te, t2)
+        rel_history(ctx, spec, x0, t0, te, t2, rng.choice([0.0, 0.3, 0.9]))
         key = (rel, json.dumps(spec, sort_keys=True), _rnd(x0), t0, te, t2)
         smp = {"relation": "SP no-op terminal event", "spec": spec, "t0": t0, "te-t0": te - t0, "dt": dt}
     else:
@@ -1082,6 +1157,8 @@ def _scn_case(ctx, rng, i):
         dur = min(dur, max(lcm, (600 if q else 1800) // lcm * lcm))
     integ = rng.choice(METHODS)
     done = rel_scenario(ctx, start.isoformat(), [sa, sb], dur, X, model, integ, geo, pert)
+    nst = rng.randrange(3, 7)
+    rel_clone_join(ctx, start.isoformat(), sa, nst, rng.randrange(1, nst), X[:, 0], model, integ, geo, pert)
     ctx.case(("scenario", start.isoformat(), sa, sb, dur, model, integ, _rnd(X)), nontrivial=bool(done))
     ctx.count("cases_scenario_" + model)
     ctx.sample({"relation": "Scenario truth ephemerides vs closed form / across physics steps", "model": model, "integration": integ, "start": start.isoformat(),
@@ -1145,6 +1222,10 @@ def replay(ctx, w):
         rel_event(ctx, w["spec"], w["x0"], w["t0"], w["te"], w["t2"], w.get("ttype", "float"), w.get("dv"))
     elif k == "epoch":
         rel_epoch(ctx, w["spec"], w["x0"], w["t0"], w["t2"], w["shift_s"])
+    elif k == "clone_join":
+        rel_clone_join(ctx, w["start"], w["step"], w["nsteps"], w["j"], w["x0"], w["model"], w["integration"], w.get("geo"), w.get("pert"))
+    elif k == "history":
+        rel_history(ctx, w["spec"], w["x0"], w["t0"], w["t1"], w["t2"], w["frac"])
     elif k == "deriv":
         rel_deriv(ctx, w["spec"], w["X"], w["t"], w["shift_s"])
     elif k == "scenario":
